@@ -167,3 +167,45 @@ Lemma recorded_density_bound_all dt bounds psd g nucRate Rnuc rdfi minR sz :
 Proof.
   intros Hwf Hi Hp Hdt Hn. apply recorded_density_bound; auto. apply eulerStep_nonneg; auto.
 Qed.
+
+(* ---- the step as the model runs it: getdXdt first zeroes the state it is handed (KWNBase._calculateDependentTerms
+   calls _processX on x in place), then the flux step, then the zeroing again before the statistics ---------------- *)
+Lemma mask_nonneg x sz minR : nonneg x ->
+  nonneg (zipWith (fun v r => if ltb Rops r minR then zero Rops else v) x sz).
+Proof.
+  revert sz; induction x as [|v r IH]; intros sz Hx k; simpl; [destruct k; simpl; lra|].
+  destruct sz as [|s sz]; simpl; [destruct k; simpl; lra|].
+  assert (Hr : nonneg r) by (intros j; exact (Hx (S j))).
+  destruct k as [|k]; simpl.
+  - pose proof (Hx 0%nat) as H0. simpl in H0. Rnorm. destruct (Rltb s minR); lra.
+  - apply IH; exact Hr.
+Qed.
+
+Lemma processX_nonneg rdfi minR sz x : nonneg x -> nonneg (processX Rops rdfi minR sz x).
+Proof.
+  intros Hx. unfold processX. destruct (zeroPrefix_le (S rdfi) x Hx) as [_ B]. apply mask_nonneg; exact B.
+Qed.
+
+Lemma zeroPrefix_length k (x : list R) : length (zeroPrefix Rops k x) = length x.
+Proof. revert x; induction k as [|k IH]; intros [|v r]; simpl; auto. Qed.
+
+Lemma processX_length rdfi minR sz (x : list R) : length sz = length x -> length (processX Rops rdfi minR sz x) = length x.
+Proof. intros H. unfold processX. rewrite zipWith_length, zeroPrefix_length. lia. Qed.
+
+Definition fullStep (dt : R) (bounds psd g : list R) (nucRate Rnuc : R) (rdfi : nat) (minR : R) (sz : list R) : list R :=
+  processX Rops rdfi minR sz (eulerStep Rops dt bounds (processX Rops rdfi minR sz psd) g nucRate Rnuc).
+
+Lemma fullStep_density_bound dt bounds psd g nucRate Rnuc rdfi minR sz :
+  wf bounds psd g -> incr bounds -> nonneg psd -> length sz = length psd -> 0 < dt -> 0 <= nucRate ->
+  sumR (fullStep dt bounds psd g nucRate Rnuc rdfi minR sz) <= sumR psd + dt * nucRate /\
+  nonneg (fullStep dt bounds psd g nucRate Rnuc rdfi minR sz).
+Proof.
+  intros Hwf Hi Hp Hl Hdt Hn. unfold fullStep.
+  pose proof (processX_nonneg rdfi minR sz psd Hp) as Hp'.
+  pose proof (processX_length rdfi minR sz psd Hl) as Hl'.
+  assert (Hwf' : wf bounds (processX Rops rdfi minR sz psd) g).
+  { unfold wf in *. cbn [T Rops] in *. Lia.lia. }
+  pose proof (recorded_density_bound_all dt bounds _ g nucRate Rnuc rdfi minR sz Hwf' Hi Hp' Hdt Hn) as H1.
+  pose proof (processX_le rdfi minR sz psd Hp) as H2.
+  split; [lra|]. apply processX_nonneg. apply eulerStep_nonneg; auto.
+Qed.
